@@ -8,6 +8,10 @@
   the Pauli group is determined by the images of X_j, Z_j, so this pins the gate's action on every row, signs
   included, for every n.  (The identification of that group semantics with Hilbert-space semantics is the cited
   tensor-lifting fact of DESIGN §7; the correspondence run additionally checks it against a dense simulator, n ≤ 5.)
+
+  §4b (state half): for every operation — measurement, reset, insertion, removal, partial trace, swap, tensor — the
+  stabilizer GROUP of the result is given in terms of the group of the input, and `history_tracks_state` chains these
+  along every history as a refinement of the abstract group-transformer semantics `specOps` (Proofs/TabSpec*.lean).
 -/
 import GraphiqModel.Proofs.Tableau
 import GraphiqModel.Proofs.TabSpecFactor
@@ -270,6 +274,10 @@ theorem stabilizer_group_unique (t : Tab) (hv : t.Valid) (H : PRow → Prop) (hH
   grp_unique t hv H hH hgen
 
 example : IsStabGrp bell.n (Grp bell) := stabilizer_group_consistent bell bell_valid bell_real
+example : ∀ i, i < 2 * bell.n → sp bell.n PRow.one (bell.row i) = false := fun _ _ => STab.sp_one_left _ _
+example : (bell.stab 0).ip = false ∧ ∀ i, i < bell.n → sp bell.n (bell.stab 0) (bell.stab i) = false :=
+  ⟨rfl, fun i hi => grp_comm bell bell_valid bell_real _ _ (grp_gen bell 0 (by decide)) (grp_gen bell i hi)⟩
+example : ∀ i, i < bell.n → Grp bell (bell.stab i) := fun i hi => grp_gen bell i hi
 
 /-! ### 4b.2 gates and swap -/
 
@@ -496,6 +504,8 @@ theorem partial_trace_spec (t t' : Tab) (keep : List Nat) (os : List Bool) (hv :
     t'.StabReal ∧ gstate t' = specPtrace keep os (gstate t) :=
   (ptrace_tracks t t' keep os hv hr h).2
 
+example : (match bell.partialTrace [0] [true] with | .ok t' => t'.n == 1 | .error _ => false) = true := by decide
+
 /-- **reduced state of a pure product factor**: if every traced-out qubit is unentangled (carries a single-site stabilizer;
     in particular: is in a computational-basis state), the result is the state of the kept qubits — `P'` is in the new group
     iff `P'` with identities inserted at the traced-out positions is in the old group — whatever the outcomes.
@@ -531,6 +541,15 @@ theorem partial_trace_of_tensor_spec (a b t' : Tab) (os : List Bool) (ha : a.Val
     (rb : b.StabReal) (h : (Tab.tensor2 a b).partialTrace (List.range a.n) os = .ok t') :
     t'.n = a.n ∧ ∀ P', Grp t' P' ↔ Grp a P' :=
   partialTrace_tensor_left a b t' os ha hb ra rb h
+
+/-- … and `partial_trace(tensor([a, b]), keep = the qubits of b)` is `b` -/
+theorem partial_trace_of_tensor_right_spec (a b t' : Tab) (os : List Bool) (ha : a.Valid) (hb : b.Valid) (ra : a.StabReal)
+    (rb : b.StabReal) (h : (Tab.tensor2 a b).partialTrace (rightSites a.n b.n) os = .ok t') :
+    t'.n = b.n ∧ ∀ Q', Grp t' Q' ↔ Grp b Q' :=
+  partialTrace_tensor_right a b t' os ha hb ra rb h
+
+example : (match (Tab.tensor2 bell (Tab.ket1 1)).partialTrace (rightSites 2 1) [false] with
+    | .ok t' => t'.n == 1 && t'.isSymplectic | .error _ => false) = true := by decide +kernel
 
 /-- `|1⟩ ⊗ Bell`: the Bell pair (entangled internally, random outcomes) is traced out, `|1⟩` is left -/
 example : (match (Tab.tensor2 (Tab.ket1 1) bell).partialTrace (List.range 1) [true] with
